@@ -116,7 +116,7 @@ func c19Relay(c *Ctx, p *Prog, cl *ssa.Function, ob *Obligation) {
 		}
 		closures = append(closures, fn)
 		c.Touch(p.FuncKey(fn))
-		copies := p.CallsIn(fn, "io.Copy")
+		copies := p.CallsIn(fn, "io.Copy", "io.CopyBuffer")
 		if len(copies) != 1 {
 			ob.Violate("copier %s does not forward with exactly one io.Copy (a hand-written copy loop must also forward bytes that arrive together with an error; only io.Copy is trusted to)", p.FuncKey(fn))
 			return
@@ -164,7 +164,7 @@ func c19Relay(c *Ctx, p *Prog, cl *ssa.Function, ob *Obligation) {
 			ob.Violate("copier %s does not defer wg.Done(): the relay never returns", fk)
 		default:
 			ok := true
-			for _, cp := range p.CallsIn(fn, "io.Copy") {
+			for _, cp := range p.CallsIn(fn, "io.Copy", "io.CopyBuffer") {
 				allInstrs(fn, func(in ssa.Instruction) {
 					if df, isD := in.(*ssa.Defer); isD && !instrDominates(df, cp) {
 						ok = false
